@@ -409,6 +409,43 @@ theorem wrap_partial (env : Env) (st st' : Sys) (ev : Event) (fn0 : Nat) (frs : 
     rw [hnil] at this
     simp at this
 
+/-- **A stale event fires one hyperframe later.**  An event for frame `F ≥ 2` that was accepted too late
+(`(F − fn0) mod GSM_MAX_FN ∈ {0, 1}`: the next `sched_gsmtime_execute` is already the one of frame `F` or `F − 1`)
+and is not removed by a reset stays pending for `GSM_MAX_FN − 2 + d` frame interrupts (3 h 28 min) and is then
+handed over — in frame `F − 2` of the next hyperframe. -/
+theorem stale_fires_next_hyperframe (env : Env) (st st' : Sys) (ev : Event) (fn0 : Nat) (frs : List Frame)
+    (outs : List FrameOut) (hinv : GInv st.g) (hev : ev ∈ st.g.active) (hfn0 : fn0 < 2715648)
+    (hF : ev.fn < 2715648) (hregion : 2 ≤ ev.fn)
+    (hd : (ev.fn + 2715648 - fn0) % 2715648 < 2) (hstep : SteppingMod fn0 frs)
+    (hno : ∀ fr ∈ frs, FrameNoGexec fr)
+    (hlen : frs.length + 1 ≤ (ev.fn + 2715648 - fn0) % 2715648 + 2715648)
+    (hrun : runFrames env st frs = .ok (st', outs)) :
+    ∀ i o, outs[i]? = some o →
+      (o.calls.filter (fun c => c.slot = ev.slot)).length =
+        if i + 2 = (ev.fn + 2715648 - fn0) % 2715648 + 2715648 then 1 else 0 := by
+  have hlen' : outs.length = frs.length := runFrames_length env _ _ _ _ hrun
+  intro i o ho
+  have hi : i < frs.length := by rw [← hlen']; exact TdmaSched.lt_of_get? _ _ _ ho
+  have hfr : frs[i]? = some frs[i] := by simp [hi]
+  have htgt : ∀ j, j < frs.length → (target ((fn0 + j) % 2715648) = ev.fn ↔
+      j + 2 = (ev.fn + 2715648 - fn0) % 2715648 + 2715648) := by
+    intro j hj
+    rw [target_small _ (by omega)]
+    omega
+  obtain ⟨r1, r2⟩ := fires_at_first_hit env frs st st' outs ev hinv hev hno hrun i _ o hfr ho
+    (by
+      intro j fr' hj hfr'
+      rw [hstep j fr' hfr']
+      intro hh
+      have := (htgt j (by omega)).mp hh
+      omega)
+  rw [hstep i _ hfr] at r1 r2
+  by_cases hh : i + 2 = (ev.fn + 2715648 - fn0) % 2715648 + 2715648
+  · obtain ⟨c, hc1, _⟩ := r2 ((htgt i hi).mpr hh)
+    simp only [hh, if_true, hc1, List.length_singleton]
+  · have hnil := r1 (fun h => hh ((htgt i hi).mp h))
+    simp only [hh, if_false, hnil, List.length_nil]
+
 /-! ### reset -/
 
 /-- **After `sched_gsmtime_reset()` all 16 slots are free and nothing is pending**; the invariant holds. -/
